@@ -286,6 +286,9 @@ func (s *Sim) Step(line string) (*StepResult, error) {
 	case "jsonrt":
 		s.jsonRoundTrip(res)
 
+	case "restart":
+		events = s.restart(res)
+
 	case "reimport":
 		// terminal: the block shows the NEW app, and the trace ends
 		if err := s.reimport(res); err != nil {
